@@ -88,6 +88,8 @@ def main(tier):
     nh = 2000 if tier == 'quick' else 50000
     hres = [histrun.run(cfg, 'asan', 'alloc', nh, 200) for cfg in ('shipped', 'kissel')]
     hres.append(histrun.run('shipped', 'plain', 'alloc', 200 if tier == 'quick' else 2000, 120, valgrind=True))
+    # ... and on the project's optimised build without assertions (buildtype=release, b_ndebug=true): what an assert() or an #ifndef NDEBUG block releases is not released there
+    hres.append(histrun.run('shipped', 'meson-release', 'alloc', 120 if tier == 'quick' else 1200, 120, valgrind=True))
     # (c) crystal-file workload: generated well-formed / corrupt / duplicate / truncated files through Crystal_ReadFile and the array API
     hres.append(histrun.run('shipped', 'asan', 'crystal', 800 if tier == 'quick' else 20000, 120, builtin_runs=1))
     hres.append(histrun.run('shipped', 'plain', 'crystal', 32 if tier == 'quick' else 400, 60, valgrind=True))
